@@ -492,7 +492,7 @@ func enginePurity(ctx *engineCtx) {
 					}
 				}
 				ctx.violate(key, what+" ["+solo+"]", map[string]any{"kind": items[i].Kind, "config": items[i].Cfg.coq(), "zone": items[i].Zone, "inherit": items[i].Inherit,
-					"history": fmt.Sprintf("parse the %d inputs of this run (seed, tier as recorded) in generation order, then this one; versus this one first", i),
+					"history":   fmt.Sprintf("parse the %d inputs of this run (seed, tier as recorded) in generation order, then this one; versus this one first", i),
 					"input_hex": hex.EncodeToString(content[:min(len(content), 4000)])})
 			}
 		}
@@ -539,4 +539,6 @@ func describeHistoryRT(msgs [][]byte) []string {
 }
 
 // the one projection of a static result used for every comparison of this engine (in-process and across processes)
-func staticProjection(s *gtfs.Static) string { return cStatic(s) + "\n" + strings.Join(dumpStatic(s), "\n") }
+func staticProjection(s *gtfs.Static) string {
+	return cStatic(s) + "\n" + strings.Join(dumpStatic(s), "\n")
+}
